@@ -338,6 +338,17 @@ def run(ctx):
             for b, nm, t in f.calls(lambda n: PANIC.search(n) is not None):
                 n_bad += 1
                 r7.bad('panic|%s|%s' % (fid, nm), 'explicit panic site %s in the request entry path' % nm, loc=f.loc(b))
+            # slicing a str by byte offsets panics inside a multi-byte character: in the entry path only whole-string
+            # or char-boundary-checked slices are acceptable
+            for b, nm, t in f.calls(lambda n: re.search(r'core::str::traits::<impl core::ops::index::Index<I> for str>::index$', n) is not None):
+                ga = ' '.join(t['f'].get('ga') or [])
+                if 'RangeFull' in ga:
+                    continue
+                cb = f.blocks_calling(lambda n: n.endswith('str>::is_char_boundary') or n.endswith('::is_char_boundary') or n.endswith('::floor_char_boundary'))
+                if cb and any(f.dominates(x, b) for x in cb):
+                    continue
+                n_bad += 1
+                r7.bad('str-slice|%s' % fid, 'the request entry path slices a string by byte offsets (%s) without a char-boundary check: a request line with a multi-byte character at that offset panics the connection thread before any authentication' % ga.split('::')[-1][:40], loc=f.loc(b))
             # indexing with BoundsCheck on request-derived data
             for b in f.g:
                 t = f.term(b)
@@ -346,6 +357,36 @@ def run(ctx):
                     r7.bad('bounds|%s' % fid, 'indexing with a bounds-check panic in the request entry path', loc=f.loc(b))
         if not n_bad:
             r7.ok('no-panic|%s' % fid)
+
+    # ------------------------------------------------------------------ R9 arithmetic in the control plane
+    from .. import arith
+    r9 = ctx.rule('C18.R9', 'no unchecked arithmetic in the control plane: every overflow / division assert site in control::*, web::pairing and the Duration constructors is discharged or reviewed', floor=15, floor_what='arithmetic assert sites')
+    R9_REVIEWED = {
+        ('value::datetime::Duration::as_millis', 'Div'): (1, 'divisor is the constant 1_000_000 (the only overflowing i64 division is MIN / -1)'),
+        ('web::pairing::PairingStore::claim', 'Add'): (1, 'now + TTL constant with now = wall-clock seconds (u64), centuries from overflow; not request-derived'),
+        ('web::pairing::PairingStore::start_pairing', 'Add'): (1, 'now + TTL constant, as claim'),
+        ('web::pairing::normalize_loaded_tokens', 'Add'): (1, 'now + 1 with now = wall-clock seconds'),
+    }
+    seen9 = {}
+    for k in sorted(fx.fns):
+        if not (k.startswith('trust_runtime::control') or k.startswith('trust_runtime::value::datetime') or k.startswith('trust_runtime::web::pairing')) or '::tests::' in k:
+            continue
+        f = F(fx.fns[k])
+        for (b, kind, op, ops) in arith.sites(f):
+            r9.saw()
+            short = k[len('trust_runtime::'):]
+            key = 'arith|%s|%s|%s' % (short, kind, op)
+            why = arith.discharge(f, b, kind, op, ops)
+            if why:
+                r9.ok(key, loc=f.loc(b), detail=why)
+                continue
+            rk = (short.split('::{closure')[0], op)
+            if rk in R9_REVIEWED:
+                seen9[rk] = seen9.get(rk, 0) + 1
+                if seen9[rk] <= R9_REVIEWED[rk][0]:
+                    r9.excepted(key, R9_REVIEWED[rk][1], loc=f.loc(b))
+                    continue
+            r9.bad(key, 'unchecked `%s` in the control plane (%s): a request carrying an extreme number panics the request thread (debug / overflow-checked builds) or silently wraps; a panic while a settings or state lock is held poisons it for every later request' % (op, short.split('::')[-1]), loc=f.loc(b))
 
     # ------------------------------------------------------------------ R8 pairing token validity
     r8 = ctx.rule('C18.R8', 'pairing validation prunes expired tokens first, matches only enabled tokens, revoke only disables, requested roles never grant Admin', floor=3)
@@ -748,3 +789,35 @@ def _pairing(ctx, r8):
                 r8.bad('revoke-only-disables|%s' % k.split('::')[-1], 'a revoke function assigns something other than `false` to PairingToken.enabled')
             elif n:
                 r8.ok('revoke-only-disables|%s' % k.split('::')[-1])
+            # ... and it disables *every* matching token: the write sits in a loop over the token list that is not
+            # left once a match was disabled (ids are not unique: two pairings claimed in the same second share one)
+            fn = F(fx.fns[k])
+            wr = [b for b in fn.g if fn.assigns_field(b, lambda f: f.endswith('PairingToken.enabled'))]
+            short = k.split('::')[-1]
+            r8.saw()
+            if not wr:
+                in_closure = any(any(isinstance(p_, list) and p_[0] == 'f' and p_[1].endswith('PairingToken.enabled') for st in bb['s'] if st[0] == 'A' for p_ in st[1][1])
+                                 for c in fx.closures_of(k) for bb in fx.fns[c]['bbs'])
+                if in_closure:
+                    r8.ok('revoke-all-matches|%s' % short, detail='disables inside an iterator adaptor closure (for_each / retain style)')
+                else:
+                    r8.bad('revoke-all-matches|%s' % short, '%s no longer disables tokens itself (shape not recognised)' % short, loc=fn.loc(0))
+                continue
+            loops = [set(c) for c in fn.sccs() if len(c) > 1]
+            ok_all = True
+            why = None
+            for w in wr:
+                comp = next((c for c in loops if w in c), None)
+                if comp is None:
+                    ok_all, why = False, 'the write of `enabled = false` is not inside a loop over the tokens: only one token with the given id is disabled, another token issued under the same id stays valid'
+                    break
+                hs = {b for b in comp if re.search(r'::next$', fn.call_name(b) or '')}
+                # after a match was disabled the loop must go on: from the write, every path returns to the iterator step
+                esc = [x for x in fn.reach(list(fn.g.get(w, ())), avoid=hs) if x not in comp]
+                if not hs or esc:
+                    ok_all, why = False, 'the loop is left after the first token was disabled: another token issued under the same id stays valid'
+                    break
+            if ok_all:
+                r8.ok('revoke-all-matches|%s' % short, loc=fn.loc(wr[0]))
+            else:
+                r8.bad('revoke-all-matches|%s' % short, '%s: %s (the revoked credential keeps passing the control gate)' % (short, why), loc=fn.loc(wr[0]))
